@@ -292,19 +292,28 @@ fn mk_probes<T: Repr + Send + Sync + 'static>(
         let out = Arc::clone(output);
         subscribe.push(Box::new(move || p.subscribe(&out)));
     }
-    // attach-from-inside-a-handler wiring (share)
+    // attach- / poke-from-inside-a-handler wiring
     for (i, s) in specs.iter().enumerate() {
-        if let Some((trigger, k, j)) = s.attach {
-            if j < ps.len() && j != i {
-                let other = Arc::clone(&ps[j]);
-                let out = Arc::clone(output);
-                *ps[i].hook.lock().unwrap() = Some(Arc::new(move |t: u8, kk: usize| {
-                    if t == trigger && (t != 1 || kk == k) {
-                        other.subscribe(&out);
-                    }
-                }));
-            }
+        let attach = s.attach.filter(|(_, _, j)| *j < ps.len() && *j != i);
+        let poke = s.poke.filter(|(_, _, j, _)| *j < ps.len() && *j != i);
+        if attach.is_none() && poke.is_none() {
+            continue;
         }
+        let a_other = attach.map(|(_, _, j)| Arc::clone(&ps[j]));
+        let p_other = poke.map(|(_, _, j, _)| Arc::clone(&ps[j]));
+        let out = Arc::clone(output);
+        *ps[i].hook.lock().unwrap() = Some(Arc::new(move |t: u8, kk: usize| {
+            if let (Some((trigger, k, _)), Some(other)) = (attach, a_other.as_ref()) {
+                if t == trigger && (t != 1 || kk == k) {
+                    other.subscribe(&out);
+                }
+            }
+            if let (Some((trigger, k, _, what)), Some(other)) = (poke, p_other.as_ref()) {
+                if t == trigger && (t != 1 || kk == k) {
+                    other.act(what);
+                }
+            }
+        }));
     }
 }
 
@@ -428,11 +437,24 @@ pub fn build(topo: &Topo, pspecs: &[PuppetSpec], lens: &[usize], probe_specs: &[
         Topo::ForEach => {
             // one for_each value, applied to one source per puppet (C13 applies it to two)
             let seen = Arc::clone(&foreach_seen);
-            let fe: std::rc::Rc<Box<dyn Fn(Src<V>)>> =
-                std::rc::Rc::new(callbag::for_each(move |x: i64| seen.lock().unwrap().push(x)));
+            // puppets that are fed back from inside the callback (PuppetSpec::feedback)
+            let fed: Arc<std::sync::Mutex<Vec<Box<dyn PuppetCtl>>>> = Arc::new(std::sync::Mutex::new(vec![]));
+            let fed2 = Arc::clone(&fed);
+            let fb: Vec<Option<usize>> = pspecs.iter().map(|s| s.feedback).collect();
+            let fe: std::rc::Rc<Box<dyn Fn(Src<V>)>> = std::rc::Rc::new(callbag::for_each(move |x: i64| {
+                seen.lock().unwrap().push(x);
+                let (id, k) = ((x / 1000) as usize, (x % 1000) as usize);
+                if fb.get(id).copied().flatten() == Some(k) {
+                    let p = fed2.lock().unwrap().iter().find(|p| p.id() == id).map(|p| p.clone_ctl());
+                    if let Some(p) = p {
+                        p.emit_all();
+                    }
+                }
+            }));
             for i in 0..pspecs.len() {
                 let p = mk(i, &op);
                 puppets.push(Box::new(Arc::clone(&p)));
+                fed.lock().unwrap().push(Box::new(Arc::clone(&p)));
                 info.members.push(i);
                 let src = p.source();
                 let w = Arc::clone(&world);
@@ -610,5 +632,5 @@ pub fn gen_puppet_spec(c: &mut Chooser, allow_late: bool, modes: &[Mode], fins: 
         fin = Fin::End;
     }
     let burst = if mode == Mode::Listen && c.chance(1, 3) { 1 + c.choose(3) } else { 0 };
-    PuppetSpec { mode, late, fin, burst, eager_end: false, per_pull: 1, on_stop: None }
+    PuppetSpec { mode, late, fin, burst, eager_end: false, per_pull: 1, on_stop: None, feedback: None }
 }
